@@ -491,6 +491,12 @@ def props_report(prop_files):
         path = os.path.join(COQ, rel)
         src = open(path).read()
         names = re.findall(r'^\s*(?:Theorem|Corollary)\s+([\w\']+)', src, flags=re.M)
+        if 'Print Assumptions' not in src:
+            # example files: already compiled by make, nothing to capture
+            theorems += names
+            if names:
+                bad.append('%s: %d theorems but no Print Assumptions' % (rel, len(names)))
+            continue
         rc, out, _ = sh(['coqc', '-Q', 'theories', 'FF', '-w', '-notation-overridden,-deprecated', rel], cwd=COQ, timeout=600)
         logs.append(out)
         if rc != 0:
